@@ -39,6 +39,7 @@ DEVIATIONS = (
     [("imp", "B", v) for v in ([], ["."], ["../"], ["../sub"], ["nodir", ".."])] +
     [("imp", "C", v) for v in ([], ["../sub/.."])] +
     [("imp", "Main", v) for v in ([], ["sub/"], ["./sub"], ["sub", "."], ["nodir"], ["sub", "nodir"])] +
+    [("ver", w, v) for w in ("A", "B", "C", "Main") for v in (["module"], ["string"], ["module", "string"])] +
     [("use", None, u) for u in ([], ["A"], ["B"], ["C"], ["A", "A"], ["A", "B", "A"], ["B", "C", "B", "C"], ["C", "B", "A"])]
 )
 
@@ -52,6 +53,8 @@ def apply(layout, devs):
             l["imports"][who] = list(val)
         elif kind == "use":
             l["use"] = list(val)
+        elif kind == "ver":
+            l.setdefault("versions", {})[who] = list(val)     # versioned imports: the version is ignored (warning)
     return l
 
 
@@ -62,6 +65,8 @@ def layouts(tier):
     for a, b in itertools.combinations(DEVIATIONS, 2):
         if (a[0], a[1]) == (b[0], b[1]):
             continue
+        if tier != "thorough" and any(x[0] == "ver" and x[2] != ["module", "string"] for x in (a, b)):
+            continue        # quick: versioned imports pair up in their combined form only
         yield (a, b)
     if tier == "thorough":
         menu = [d for d in DEVIATIONS if d[0] == "root" or (d[0] == "imp" and d[2] in ([], ["nodir"]))]
@@ -71,8 +76,9 @@ def layouts(tier):
 
 
 def file_text(name, layout):
-    imps = "".join(f'import "{i}"\n' for i in layout["imports"].get(name, []))
-    head = "import qmluic.QtWidgets\n" + imps
+    ver = layout.get("versions", {}).get(name, [])
+    imps = "".join(f'import "{i}"{" 1.0" if "string" in ver else ""}\n' for i in layout["imports"].get(name, []))
+    head = "import qmluic.QtWidgets" + (" 6.2" if "module" in ver else "") + "\n" + imps
     if name == "Main":
         kids = []
         for i, u in enumerate(layout["use"]):
